@@ -137,6 +137,24 @@ func (c13) Run(c *run.Ctx, phase, idx int) {
 		}
 		c.Count("shared-packet-origin", "decoded", 1)
 	}
+	willAdjusted := false
+	if t == ref.TConnect && a.HasWill() && idx%6 != 4 && !r.Chance(1, 4) {
+		willAdjusted = true
+		// the application adjusts its will message after SetWill (it still
+		// holds the *Publish): whatever the CONNECT derives from the will must
+		// not be re-derived - and written - by a read-only operation (round 12, V4-a)
+		inner := build
+		build = func() (mq.Packet, error) {
+			p, err := inner()
+			if cp, ok := p.(*mq.Connect); err == nil && ok && cp.Will() != nil {
+				w := cp.Will()
+				w.SetRetain(!w.Retain())
+				w.SetQoS((w.QoS() + 1) % 3)
+			}
+			return p, err
+		}
+		c.Count("shared-packet-origin", "will-adjusted-after-SetWill", 1)
+	}
 	pkt, err := build()
 	if err != nil {
 		c.Count("skipped", "no-setter", 1)
@@ -148,7 +166,7 @@ func (c13) Run(c *run.Ctx, phase, idx int) {
 	// read-only operation on the shared packet happens in the concurrent
 	// part: lazily completed state shows up as a race there
 	first := pkt
-	if idx%6 == 4 || idx%6 == 2 || idx%3 == 1 {
+	if idx%6 == 4 || idx%6 == 2 || idx%3 == 1 || willAdjusted {
 		if twin, terr := build(); terr == nil {
 			first = twin
 			c.Count("shared-packet-origin", "first-use-is-concurrent", 1)
